@@ -75,7 +75,11 @@ class Gateway:
 
     @classmethod
     def from_json(cls, json_string: str):
-        return Gateway(Labels.from_json(json_string))
+        lab = Labels.from_json(json_string)
+        # like the other from_json methods: nothing encoded means no object
+        if lab is None:
+            return None
+        return Gateway(lab)
 
     def __str__(self):
         ar = list()
